@@ -182,6 +182,71 @@ def r17_3(ctx, counts) -> RuleResult:
     return res
 
 
+def r17_4(ctx, counts) -> RuleResult:
+    from ..engine.cfg import CFG
+    model: Model = ctx.model
+    res = RuleResult(
+        'R17.4', 'DUPLICATE-KEY-NORMAL-FORM',
+        'In xml-to-json the duplicate-key test compares keys in one normal form: the text given '
+        'to unescape_json_string is the result of escape_json_string (honouring escaped-key), '
+        'i.e. on the CFG the definition of its argument that reaches the call is an assignment '
+        'from escape_json_string(…). Unescaping the raw attribute value instead makes the '
+        'unescaped key "a\\\\nb" collide with "a<newline>b" (false FOJS0006) .')
+    mod = model.module('elementpath.xpath31._xpath31_functions')
+    n = 0
+    for f in sorted(mod.functions.values(), key=lambda q: q.key):
+        calls = [c for c in walk_local(f.node) if isinstance(c, ast.Call)
+                 and dotted(c.func).split('.')[-1] == 'unescape_json_string' and c.args]
+        if not calls:
+            continue
+        cfg = CFG(f.node)
+        for c in calls:
+            n += 1
+            arg = c.args[0]
+            ok = False
+            why = ''
+            if isinstance(arg, ast.Call) and dotted(arg.func).split('.')[-1] == 'escape_json_string':
+                ok, why = True, 'direct composition'
+            elif isinstance(arg, ast.Name):
+                here = next((nd for nd in cfg.nodes if nd.ast is not None and nd.kind in ('stmt', 'test')
+                             and any(y is c for y in ast.walk(
+                                 nd.ast.test if isinstance(nd.ast, (ast.If, ast.While)) else nd.ast))),
+                            None)
+                defs = [nd for nd in cfg.nodes if nd.kind in ('stmt', 'for')
+                        and isinstance(nd.ast, (ast.Assign, ast.AnnAssign, ast.For))
+                        and any(isinstance(t, ast.Name) and t.id == arg.id for t in ast.walk(
+                            nd.ast.targets[0] if isinstance(nd.ast, ast.Assign) else nd.ast.target))]
+                if here is None or not defs:
+                    raise AnalysisError(f'{f.key}: definitions of `{arg.id}` not located')
+                reaching = [d for d in defs if d is not here and cfg.path_avoiding(
+                    [d], lambda q: q is here, lambda q, d=d: q in defs and q is not d) is not None]
+                kinds = []
+                for d in reaching:
+                    v = getattr(d.ast, 'value', None)
+                    kinds.append(isinstance(v, ast.Call) and
+                                 dotted(v.func).split('.')[-1] == 'escape_json_string')
+                ok = bool(kinds) and all(kinds)
+                why = f'{len(reaching)} reaching definition(s), from escape_json_string: {kinds}'
+            res.instances.append(f'{f.key}: {stmt_text(c)[:50]}: {why}')
+            if ok:
+                res.ok()
+            else:
+                res.fail(finding('R17.4', f, c, 'unescape of a non-normalised key',
+                                 f'`{stmt_text(c)[:50]}` unescapes a key that has not passed '
+                                 f'escape_json_string ({why}): keys are compared in two different '
+                                 f'forms and distinct keys are reported as duplicates'))
+    counts['unescape_calls'] = n
+    if n < 1:
+        raise AnalysisError('no call of unescape_json_string located in the xpath31 functions')
+    return res
+
+
+def _shared(ctx, counts) -> list:
+    """is_xml_codepoint decides which characters parse-json / json-to-xml replace (R09.3)"""
+    from .c09_strings import r09_3
+    return [r09_3(ctx, counts)]
+
+
 def run(ctx) -> dict:
     counts: dict[str, int] = {}
 
@@ -193,7 +258,8 @@ def run(ctx) -> dict:
     if not r1.instances:
         raise AnalysisError('R17.1: no trailing-zero strip located in the JSON/serialization code')
     return {
-        'results': [r1, r17_2(ctx, counts), r17_3(ctx, counts)], 'counts': counts,
+        'results': [r1, r17_2(ctx, counts), r17_3(ctx, counts), r17_4(ctx, counts)] + _shared(ctx, counts),
+        'counts': counts,
         'explanation':
             'Three necessary conditions of "xml-to-json(json-to-xml(t)) denotes the same JSON '
             'value as t and is accepted by an independent JSON parser": number text keeps its '
